@@ -1041,7 +1041,7 @@ impl CasObject {
         // 2. walk chunks from Info
         let mut hash_chunks: Vec<Chunk> = Vec::new();
         let mut cumulative_compressed_length: u32 = 0;
-        let mut unpacked_chunk_offset = 0;
+        let mut unpacked_chunk_offset: u32 = 0;
 
         let mut start_offset = 0;
         // Validate each chunk: iterate chunks, deserialize chunk, compare stored hash with
@@ -1063,7 +1063,12 @@ impl CasObject {
             });
 
             cumulative_compressed_length += compressed_chunk_length as u32;
-            unpacked_chunk_offset += chunk_uncompressed_length;
+            // The footer stores unpacked offsets as u32; an object whose unpacked size does not fit is rejected.
+            let Some(next_unpacked_chunk_offset) = unpacked_chunk_offset.checked_add(chunk_uncompressed_length) else {
+                warn!("XORB Validation: unpacked chunk offsets exceed the 32-bit range of the format.");
+                return Ok(None);
+            };
+            unpacked_chunk_offset = next_unpacked_chunk_offset;
 
             // verify chunk hash
             if *cas.info.chunk_hashes.get(idx as usize).unwrap() != chunk_hash {
